@@ -52,7 +52,7 @@ def make_dataset(conv, shape, variant):
         return ds, CFGrid2D(ds), {'face': (ny, nx)}
     if conv == 'shoc_simple':
         nj, ni = shape
-        ds = builders.shoc_simple(nj, ni)
+        ds = builders.shoc_simple(nj, ni, data_vars={'v': (('i', 'j'), numpy.zeros((ni, nj)))})
         return ds, ShocSimple(ds), {'face': (nj, ni)}
     if conv == 'shoc_standard':
         nj, ni = shape
@@ -105,8 +105,12 @@ def row_major(comps, shape):
     return acc
 
 
-def body(ctx, conv, shape, variant, kind, part):
-    ds, convention, expected = make_dataset(conv, shape, variant)
+def body(ctx, conv, shape, variant, kind, part, data_first=False):
+    builders.DATA_FIRST = data_first
+    try:
+        ds, convention, expected = make_dataset(conv, shape, variant)
+    finally:
+        builders.DATA_FIRST = False
     kind_obj = next(k for k in convention.grid_kinds if k.value == kind)
     eshape = expected[kind]
     size = int(numpy.prod(eshape))
@@ -202,6 +206,13 @@ def cases(tier):
                 name = f'{conv}:{shp}:{variant}:{kind}:{part}'
                 name = name.replace(' ', '')
                 yield Case(name, body, dict(conv=conv, shape=shp, variant=variant, kind=kind, part=part),
+                           patches=_patches, max_paths=500)
+    # a data variable stored (x, y) listed before the geometry variables: the dataset's own dimension order is x, y
+    for conv, variant in (('cf1d', 'yx'), ('cf2d', 'plainvars'), ('shoc_simple', '-')):
+        for shp in ((2, 3), (3, 1)) if tier == 'quick' else ((2, 3), (3, 1), (1, 4), (4, 5)):
+            for part in ('meta', 'wind', 'ravel'):
+                yield Case(f'{conv}:{shp}:{variant}:face:{part}:datafirst'.replace(' ', ''), body,
+                           dict(conv=conv, shape=shp, variant=variant, kind='face', part=part, data_first=True),
                            patches=_patches, max_paths=500)
 
 
